@@ -562,16 +562,134 @@ def tpl_hashmap(r):
     return TextProgram(text, {"tpl.hashmap"} | {"hashmap." + t for t in kinds}), exp
 
 
+def tpl_alias_push(r, flags=None):
+    """(array_push a (at a i)) / (array_set a j (at a i)): the source is an element of the destination, at the lengths
+    where the store has to grow (8, 16, 32) and next to them; string, nested-array and struct elements.  Struct elements
+    at length == capacity are generated only when the directed program for that open finding runs clean."""
+    flags = flags or {}
+    p = A.Program()
+    m = p.main
+    m.structs.append(("TQ", [("x", "int"), ("name", "string")]))
+    TQ = ("struct", "TQ")
+    AQ = ("array", TQ)
+    AA = ("array", AI)
+    body = []
+    lab = [0]
+
+    def pr(e, t="int"):
+        lab[0] += 1
+        return P("A%d" % lab[0], e, t)
+    for kind in r.sample(["string", "nested", "struct", "struct"], 3):
+        n = r.choice([8, 16, 32]) + r.choice([0, 0, 0, -1, 1])
+        if kind == "struct" and not flags.get("alias_grow_prog"):
+            n = r.choice([9, 10, 17, 3, 20, 33])       # none of the three aliasing pushes (at n, n+1, n+2) finds the store full
+        v = "a%d" % lab[0]
+        lab[0] += 1
+        i = r.choice([0, n - 1, n // 2])
+        if kind == "string":
+            body += [("let", v, AS, True, ("arr", "string", []))]
+            body += _while_count("c" + v, I(n), [("set", v, C("array_push", V(v), cat(S("s"), C("int_to_string", V("c" + v)))))])
+            body += [("set", v, C("array_push", V(v), C("at", V(v), I(i))))]
+            body += pr(C("at", V(v), I(n)), "string") + pr(C("array_length", V(v)))
+            body += [("expr", C("array_set", V(v), I(0), C("at", V(v), I(n))))] + pr(C("at", V(v), I(0)), "string")
+            body += [("expr", C("array_set", V(v), I(1), C("at", V(v), I(1))))] + pr(C("at", V(v), I(1)), "string")
+        elif kind == "nested":
+            body += [("let", v, AA, True, ("arr", AI, []))]
+            body += _while_count("c" + v, I(n), [("set", v, C("array_push", V(v), ("arr", "int", [V("c" + v), I(7)])))])
+            body += [("set", v, C("array_push", V(v), C("at", V(v), I(i))))]
+            body += [("let", "l" + v, AI, False, C("at", V(v), I(n)))] + pr(C("at", V("l" + v), I(0))) + pr(C("array_length", V(v)))
+        else:
+            body += [("let", v, AQ, True, ("arr", TQ, []))]
+            body += _while_count("c" + v, I(n), [("set", v, C("array_push", V(v), ("structlit", "TQ", [("x", B("*", V("c" + v), I(3))), ("name", cat(S("q"), C("int_to_string", V("c" + v))))])))])
+            body += [("set", v, C("array_push", V(v), C("at", V(v), I(i))))]
+            body += [("let", "e" + v, TQ, False, C("at", V(v), I(n)))] + pr(("field", V("e" + v), "x")) + pr(cat(S(""), ("field", V("e" + v), "name")), "string")
+            body += [("expr", C("array_set", V(v), I(0), C("at", V(v), I(n - 1))))]
+            body += [("expr", C("array_set", V(v), I(1), C("at", V(v), I(1))))]
+            body += [("let", "f" + v, TQ, False, C("at", V(v), I(0)))] + pr(("field", V("f" + v), "x")) + pr(C("array_length", V(v)))
+            # a second and third aliasing push right after the growth
+            body += [("set", v, C("array_push", V(v), C("at", V(v), I(n)))), ("set", v, C("array_push", V(v), C("at", V(v), I(1))))]
+            body += [("let", "g" + v, TQ, False, C("at", V(v), I(n + 2)))] + pr(cat(S(""), ("field", V("g" + v), "name")), "string")
+    body.append(("return", I(0)))
+    m.funcs.append(_fn("main", [], "int", body))
+    p.tags = {"tpl.alias_push"}
+    return p
+
+
+def tpl_to_string(r, flags=None):
+    """to_string of arrays and of a struct whose rendered text ends at / next to the formatter's capacities (256, 512):
+    every append boundary of `[d, d, ...]` is swept by the element count, the struct's by the length of a string field.
+    Text program; the expected output is computed alongside."""
+    out = []
+    body = []
+    lab = [0]
+
+    def line(text):
+        out.append(text + "\n")
+
+    decl = "struct TR { name: string, id: int, ok: bool }\n"
+    # arrays of one-digit ints: n elements render to 3n bytes; appends end at every offset 3k+1 / 3k+2 on the way
+    for n in sorted(r.sample(range(80, 101), 3) + r.sample(range(165, 181), 2)):
+        lab[0] += 1
+        v = "a%d" % lab[0]
+        d = r.randint(0, 9)
+        body.append("    let mut %s: array<int> = []" % v)
+        body.append("    let mut c%s: int = 0" % v)
+        body.append("    while (< c%s %d) {" % (v, n))
+        body.append("        set %s (array_push %s (%% (+ c%s %d) 10))" % (v, v, v, d))
+        body.append("        set c%s (+ c%s 1)" % (v, v))
+        body.append("    }")
+        body.append('    (println (+ "T%d:" (to_string %s)))' % (lab[0], v))
+        line("T%d:[%s]" % (lab[0], ", ".join(str((i + d) % 10) for i in range(n))))
+    # an array of strings whose single long element puts the closing quote / bracket on the boundary
+    for total in r.sample([255, 256, 257, 258, 259, 511, 512, 513, 514], 3):
+        lab[0] += 1
+        v = "s%d" % lab[0]
+        k = total - 4
+        body.append('    let mut w%s: string = ""' % v)
+        body.append("    let mut c%s: int = 0" % v)
+        body.append("    while (< c%s %d) {" % (v, k))
+        body.append('        set w%s (+ w%s "x")' % (v, v))
+        body.append("        set c%s (+ c%s 1)" % (v, v))
+        body.append("    }")
+        body.append("    let %s: array<string> = [w%s]" % (v, v))
+        body.append("    let t%s: string = (to_string %s)" % (v, v))
+        body.append('    (print "T%d:")' % lab[0])
+        body.append("    (println (str_length t%s))" % v)
+        body.append('    (println (+ "T%db:" (str_substring t%s %d 9)))' % (lab[0], v, total - 5))
+        line("T%d:%d" % (lab[0], total))
+        line('T%db:xxx"]' % lab[0])
+    # struct: "TR { name: " (11) + k + ", id: 7, ok: true }" (19)
+    for k in r.sample(range(222, 242), 4) + r.sample(range(478, 498), 2):
+        lab[0] += 1
+        v = "r%d" % lab[0]
+        body.append('    let mut n%s: string = ""' % v)
+        body.append("    let mut c%s: int = 0" % v)
+        body.append("    while (< c%s %d) {" % (v, k))
+        body.append('        set n%s (+ n%s "y")' % (v, v))
+        body.append("        set c%s (+ c%s 1)" % (v, v))
+        body.append("    }")
+        body.append("    let %s: TR = TR { name: n%s, id: 7, ok: true }" % (v, v))
+        body.append("    let t%s: string = (to_string %s)" % (v, v))
+        body.append('    (print "T%d:")' % lab[0])
+        body.append("    (println (str_length t%s))" % v)
+        body.append('    (println (+ "T%db:" (str_substring t%s %d 30)))' % (lab[0], v, 11 + k - 2))
+        line("T%d:%d" % (lab[0], 30 + k))
+        line("T%db:yy, id: 7, ok: true }" % lab[0])
+    text = decl + "fn main() -> int {\n" + "\n".join(body) + "\n    return 0\n}\nshadow main { assert true }\n"
+    exp = {"stdout": "".join(out), "exit": 0, "steps": 0, "builtins": ["to_string", "array_push", "str_length", "str_substring"]}
+    return TextProgram(text, {"tpl.to_string"}), exp
+
+
 TEMPLATES = [tpl_strings_in_arrays, tpl_struct_arrays, tpl_union_payload, tpl_recursion_heap, tpl_array_ops, tpl_string_growth,
-             tpl_hashmap, tpl_hashmap]
+             tpl_hashmap, tpl_hashmap, tpl_alias_push, tpl_alias_push, tpl_to_string]
 
 
 def make_template(args):
-    idx, seed = args
+    idx, seed, flags = args
     r = random.Random(seed)
     fn = TEMPLATES[idx % len(TEMPLATES)]
     try:
-        prog = fn(r)
+        prog = fn(r, flags) if fn in (tpl_alias_push, tpl_to_string) else fn(r)
         if isinstance(prog, tuple):
             return prog                  # text templates come with their expected output
         exp = evaluate20(prog)
@@ -586,6 +704,11 @@ def make_template(args):
 DIRECTED_PROGRAMS = {
     "substring_len_max": ('fn main() -> int {\n    (println (str_substring "hello" 1 9223372036854775807))\n    (println "end")\n    return 0\n}\nshadow main { assert true }\n',
                           "ello\nend\n", 0),
+    # pushing an element of an array of structs onto the same array when it is full (8 elements)
+    "array_push_own_struct_at_capacity": (
+        'struct P { x: int, y: int }\nfn main() -> int {\n    let mut a: array<P> = []\n    let mut i: int = 0\n    while (< i 8) {\n'
+        '        set a (array_push a P { x: i, y: (* i 2) })\n        set i (+ i 1)\n    }\n    set a (array_push a (at a 3))\n    let e: P = (at a 8)\n'
+        '    (println e.y)\n    (println (array_length a))\n    return 0\n}\nshadow main { assert true }\n', "6\n9\n", 0),
     # strings are values: what map_get returned must survive a later put of the same key
     "map_get_then_put": ('fn main() -> int {\n    let m: HashMap<string, string> = (map_new)\n    (map_put m "a" "one")\n    let v: string = (map_get m "a")\n'
                          '    (map_put m "a" "two")\n    (println v)\n    (println (map_get m "a"))\n    return 0\n}\nshadow main { assert true }\n', "one\ntwo\n", 0),
@@ -713,12 +836,12 @@ def _gen_own(args):
     return prog, exp
 
 
-def gen_programs(ctx, n_random, n_templates):
+def gen_programs(ctx, n_random, n_templates, flags=None):
     """[(name, Program, expected)]: the `n_random` highest ownership scores out of 1.5*n_random generated programs, plus
     `n_templates` instances of the hand-written templates.  Deterministic in (seed, index)."""
     import concurrent.futures as cf
     cand = [(ctx.rng("own", i).getrandbits(64), ctx.rng("own-size", i).choice([0.8, 1.0, 1.3, 1.6])) for i in range(n_random + n_random // 2)]
-    tpl = [(i, ctx.rng("tpl", i).getrandbits(64)) for i in range(n_templates)]
+    tpl = [(i, ctx.rng("tpl", i).getrandbits(64), flags or {}) for i in range(n_templates)]
     out = []
     with cf.ProcessPoolExecutor(max_workers=min(16, os.cpu_count() or 4)) as ex:
         gens = list(ex.map(_gen_own, cand, chunksize=4))
@@ -728,7 +851,7 @@ def gen_programs(ctx, n_random, n_templates):
     n_generated = len(scored)
     for sc_, i, (prog, exp) in sorted(scored[:n_random], key=lambda x: x[1]):
         out.append(("g%05d" % i, prog, exp))
-    for (i, _), t in zip(tpl, tpls):
+    for (i, _, _f), t in zip(tpl, tpls):
         if t is not None:
             out.append(("t%05d" % i, t[0], t[1]))
     return out, n_generated
@@ -926,10 +1049,13 @@ OPNAMES = {
     "cc": "concat", "cs": "substring", "cn": "contains", "ci": "index_of", "ch": "char_at", "cl": "length", "cf": "from_char",
     "pc": "nl_str_concat", "ps": "nl_str_substring", "pn": "nl_str_contains", "pe": "nl_str_equals", "pi": "int_to_string",
     "pt": "string_to_int", "ph": "char_at", "pf": "string_from_char",
+    "apA": "push_own_element", "apcA": "push_string_copy_own_element", "asA": "set_from_own_element", "aT": "to_string",
+    "lpA": "push_own_element", "liA": "insert_own_element", "mpA": "push_own_element", "miA": "insert_own_element", "msA": "set_from_own_element",
+    "fn": "new", "fa": "append_cstr", "fc": "append_char", "fA": "append_own_buffer", "fb": "build", "ff": "free",
     "hn": "new", "hp": "put", "hg": "get", "hG": "get_and_hold", "hh": "has", "hr": "remove", "hl": "length", "hx": "clear",
     "hk": "keys", "hv": "values", "hf": "free", "hH": "held_string", "hA": "held_array",
 }
-CONTAINER = {"a": "dyn_array", "l": "list_int", "m": "list_string", "g": "gc", "s": "nl_string", "c": "nl_cstr", "p": "prelude", "h": "hashmap"}
+CONTAINER = {"a": "dyn_array", "l": "list_int", "m": "list_string", "g": "gc", "s": "nl_string", "c": "nl_cstr", "p": "prelude", "h": "hashmap", "f": "fmt_builder"}
 
 
 def op_of(line):
@@ -986,11 +1112,12 @@ class DAGen:
     EMPTY_POP = {"i": "empty 0", "u": "empty 0", "f": "empty 0000000000000000", "b": "empty 0", "s": "empty NULL", "a": "empty @-1", "t": "empty -"}
     TYPE_NO = {"i": 1, "u": 8, "f": 2, "s": 3, "b": 4, "a": 5, "t": 6}
 
-    def __init__(self, r, h, nops, kinds="iufbsat"):
+    def __init__(self, r, h, nops, kinds="iufbsat", flags=None):
         self.r = r
         self.h = h
         self.nops = nops
         self.kinds = kinds
+        self.flags = flags or {}
         self.slots = {}          # slot -> {"k": kind, "items": [printed form], "ssize": int|None}
         self.ops = {}
 
@@ -1043,15 +1170,119 @@ class DAGen:
         if s is None:
             return False
         k = self.r.choice(self.kinds)
-        self.slots[s] = {"k": k, "items": [], "ssize": None}
+        self.slots[s] = {"k": k, "items": [], "ssize": None, "mcap": 8}
         if self.r.random() < 0.6:
             self.h.c("an %d %s" % (s, k), "ok", 0)
             self.count("an", k)
         else:
             cap = self.r.choice([-5, 0, 1, 7, 8, 9, 16, 100, 1000])
+            self.slots[s]["mcap"] = max(8, cap)
             self.h.c("ac %d %s %d" % (s, k, cap), "ok", 0)
             self.count("ac", k)
         return True
+
+    def grew(self, d):
+        """follow the implementation's growth policy (doubling) - only used to choose operations, never compared"""
+        while len(d["items"]) > d["mcap"]:
+            d["mcap"] *= 2
+
+    def push_own(self, s):
+        """push an element of the array itself; at length == capacity the store moves while the source points into it"""
+        d = self.slots[s]
+        n = len(d["items"])
+        if n == 0:
+            return False
+        if d["k"] == "t" and n >= d["mcap"] and not self.flags.get("alias_grow"):
+            return False                 # known defect (dyn_array_push_struct reads the freed store), see DIRECTED_HISTORIES
+        i = self.index(n)
+        op = "apcA" if d["k"] == "s" and self.r.random() < 0.5 else "apA"
+        d["items"].append(d["items"][i])
+        self.grew(d)
+        self.h.c("%s %d %d" % (op, s, i), "same", n + 1)
+        self.count(op, d["k"])
+        return True
+
+    def render(self, s, seen=()):
+        """text nl_to_string_array produces, or None when the model does not cover it (floats, cycles)"""
+        d = self.slots[s]
+        k = d["k"]
+        if k == "f" or s in seen:
+            return None
+        parts = []
+        for it in d["items"]:
+            if k in "iu":
+                parts.append(it.encode())
+            elif k == "b":
+                parts.append(b"true" if it == "1" else b"false")
+            elif k == "s":
+                parts.append(b'"' + (b"" if it == "-" else bytes.fromhex(it)) + b'"')
+            elif k == "t":
+                parts.append(b"<struct>")
+            else:
+                sub = self.render(int(it[1:]), seen + (s,))
+                if sub is None:
+                    return None
+                parts.append(sub)
+        return b"[" + b", ".join(parts) + b"]"
+
+    def gc_strings(self, s):
+        """gc-managed strings to_string leaves behind: one int_to_string result per int / u8 element (never released)"""
+        d = self.slots[s]
+        if d["k"] in "iu":
+            return len(d["items"])
+        if d["k"] == "a":
+            return sum(self.gc_strings(int(it[1:])) for it in d["items"])
+        return 0
+
+    def to_string(self, s):
+        txt = self.render(s)
+        if txt is None or len(txt) > 6000:
+            return False
+        d = self.slots[s]
+        self.gc_extra = getattr(self, "gc_extra", 0) + self.gc_strings(s)
+        self.h.c("aT %d" % s, hx(txt), len(d["items"]))
+        self.count("aT", d["k"])
+        self.ops["to_string.text_length_%s" % ("<=254" if len(txt) < 255 else "255-258" if len(txt) <= 258 else "259-510" if len(txt) < 511 else
+                                                "511-514" if len(txt) <= 514 else ">514")] = 1 + self.ops.get(
+            "to_string.text_length_%s" % ("<=254" if len(txt) < 255 else "255-258" if len(txt) <= 258 else "259-510" if len(txt) < 511 else
+                                          "511-514" if len(txt) <= 514 else ">514"), 0)
+        return True
+
+    def to_string_boundary(self):
+        """make the rendered text end exactly at / next to the formatter's capacities (256, 512, 1024 bytes)"""
+        r = self.r
+        c = [x for x, d in self.slots.items() if d["k"] in "sib"]
+        if not c:
+            return
+        s = r.choice(c)
+        d = self.slots[s]
+        cur = self.render(s)
+        if cur is None:
+            return
+        target = r.choice([256, 512, 1024]) + r.choice([-1, 0, 0, 1, 1, 2, 2, 3])
+        sep = 2 if d["items"] else 0
+        if d["k"] == "s":
+            need = target - len(cur) - sep - 2
+            if need < 0 or self.room() < 3:
+                return
+            b = rand_bytes(r, need, "ascii")
+            d["items"].append(hx(b))
+            self.grew(d)
+            self.h.c("ap %d %s" % (s, hx(b)), "same", len(d["items"]))
+            self.count("ap", "s")
+        else:
+            # one-digit ints / bools until the next element would pass the target
+            while self.room() > 3:
+                cur = self.render(s)
+                tok = str(r.randint(0, 9)) if d["k"] == "i" else str(r.randint(0, 1))
+                add = (2 if d["items"] else 0) + (1 if d["k"] == "i" else (4 if tok == "1" else 5))
+                if len(cur) + add > target:
+                    break
+                d["items"].append(tok)
+                self.grew(d)
+                self.h.c("ap %d %s" % (s, tok), "same", len(d["items"]))
+                self.count("ap", d["k"])
+        self.to_string(s)
 
     def push(self, s):
         d = self.slots[s]
@@ -1061,6 +1292,7 @@ class DAGen:
         tok, shown = v
         op = "apc" if d["k"] == "s" and self.r.random() < 0.4 else "ap"
         d["items"].append(shown)
+        self.grew(d)
         self.h.c("%s %d %s" % (op, s, tok), "same", len(d["items"]))
         self.count(op, d["k"])
         return True
@@ -1093,8 +1325,18 @@ class DAGen:
         n = len(d["items"])
         k = r.random()
         if k < 0.30:
+            if r.random() < 0.12:
+                return self.push_own(s)
             return self.push(s)
         if k < 0.40:
+            if r.random() < 0.1:
+                return self.to_string(s)
+            if r.random() < 0.1 and n:
+                i, j = self.index(n), self.index(n)
+                d["items"][i] = d["items"][j]
+                self.h.c("asA %d %d %d" % (s, i, j), "ok", n)
+                self.count("asA", d["k"])
+                return True
             return self.pop(s)
         if k < 0.50:
             if n == 0:
@@ -1131,6 +1373,7 @@ class DAGen:
             if d["k"] == "t" and d["ssize"] is None:
                 return False             # reserve before the first struct push: known defect, see DIRECTED_HISTORIES
             want = r.choice([-1, 0, n, n + 1, 8, 9, 16, 17, 2 * n + 3, r.choice(BOUNDARY_LENS), 2000])
+            d["mcap"] = max(d["mcap"], want)
             self.h.c("av %d %d" % (s, want), "ok", n)
             self.count("av", d["k"])
             return True
@@ -1140,7 +1383,7 @@ class DAGen:
             t = self.free_slot()
             if t is None:
                 return False
-            self.slots[t] = {"k": d["k"], "items": list(d["items"]), "ssize": d["ssize"]}
+            self.slots[t] = {"k": d["k"], "items": list(d["items"]), "ssize": d["ssize"], "mcap": max(8, n)}
             self.h.c("ak %d %d" % (t, s), "ok", n)
             self.count("ak", d["k"])
             return True
@@ -1151,7 +1394,8 @@ class DAGen:
             st = r.choice([0, n, n // 2, r.randint(0, n)])
             ln = r.choice([0, 1, n - st, max(0, n - st - 1), n - st + 1, n + 7, 1 << 62])
             part = d["items"][st:st + ln]
-            self.slots[t] = {"k": d["k"], "items": list(part), "ssize": d["ssize"] if part else None}
+            self.slots[t] = {"k": d["k"], "items": list(part), "ssize": d["ssize"] if part else None, "mcap": 8}
+            self.grew(self.slots[t])
             self.h.c("al %d %d %d %d" % (t, s, st, ln), "ok", len(part))
             self.count("al", d["k"])
             return True
@@ -1167,7 +1411,7 @@ class DAGen:
             # known defect of gc_mark (see DIRECTED_HISTORIES) and keep the random workload from collecting
             if any(x["k"] == "t" and x["items"] and (x["ssize"] or 0) < 8 for x in self.slots.values()):
                 return False
-            self.h.x("gc", "ok", " | live=%d" % len(self.slots))
+            self.h.x("gc", "ok", " | live=%d" % (len(self.slots) + getattr(self, "gc_extra", 0)))
             self.ops["collect_cycles.-"] = self.ops.get("collect_cycles.-", 0) + 1
             return True
         if k < 0.98:
@@ -1193,6 +1437,9 @@ class DAGen:
                 return
             t = r.choice(targets[-4:])
             while len(d["items"]) < t and self.room() > 0:
+                # the push that makes the store grow takes an element of the array itself as its source now and then
+                if len(d["items"]) >= d["mcap"] and r.random() < 0.5 and self.push_own(s):
+                    continue
                 if not self.push(s):
                     return
                 m = len(d["items"])
@@ -1217,6 +1464,9 @@ class DAGen:
             if r.random() < 0.12:
                 self.burst()
                 continue
+            if r.random() < 0.03:
+                self.to_string_boundary()
+                continue
             before = len(self.h.lines)
             self.step()
             if len(self.h.lines) > before and self.slots and r.random() < 0.5 and self.room() > 0:
@@ -1232,18 +1482,44 @@ class DAGen:
             k = self.slots.pop(s)["k"]
             self.h.x("af %d" % s, "ok")
             self.count("af", k)
-        self.h.x("gc", "ok", " | live=0")
+        self.h.x("gc", "ok", " | live=%d" % getattr(self, "gc_extra", 0))
         return self.ops
 
 
 # ---- list_int / list_string -----------------------------------------------------------------------------------------
 class ListGen:
-    def __init__(self, r, h, nops):
+    def __init__(self, r, h, nops, flags=None):
         self.r = r
         self.h = h
         self.nops = nops
+        self.flags = flags or {}
         self.slots = {}      # slot -> {"k": "l"|"m", "items": [...]}
         self.ops = {}
+
+    def own(self, s):
+        """push / insert / set with an element of the list itself as the source (also when the store has to grow)"""
+        r = self.r
+        d = self.slots[s]
+        p, it = d["k"], d["items"]
+        n = len(it)
+        if n == 0:
+            return
+        j = r.choice([0, n - 1, r.randrange(n)])
+        k = r.random()
+        if k < 0.4:
+            it.append(it[j])
+            self.emit(p, "pA", s, [j], "ok")
+        elif k < 0.8 or p == "l":
+            i = r.choice([0, n, r.randint(0, n)])
+            v = it[j]
+            it.insert(i, v)
+            self.emit(p, "iA", s, [i, j], "ok")
+        else:
+            i = r.choice([0, n - 1, r.randrange(n)])
+            if i == j and not self.flags.get("set_self"):
+                return                   # list_string_set(l, i, list_string_get(l, i)): known defect, see DIRECTED_HISTORIES
+            it[i] = it[j]
+            self.emit(p, "sA", s, [i, j], "ok")
 
     def count(self, op):
         key = "%s.%s" % (OPNAMES[op], "int" if op[0] == "l" else "string")
@@ -1284,7 +1560,9 @@ class ListGen:
         p, it = d["k"], d["items"]
         n = len(it)
         k = r.random()
-        if k < 0.30:
+        if k < 0.06:
+            self.own(s)
+        elif k < 0.30:
             v = self.val(p)
             it.append(v)
             self.emit(p, "p", s, [v], "ok")
@@ -1337,6 +1615,11 @@ class ListGen:
                     t = r.choice(targets[-3:])
                     while len(d["items"]) < t:
                         v = self.val(d["k"])
+                        if d["items"] and r.random() < 0.25:
+                            self.own(s)
+                            if len(d["items"]) >= t:
+                                break
+                            continue
                         if r.random() < 0.7:
                             d["items"].append(v)
                             self.emit(d["k"], "p", s, [v], "ok")
@@ -2078,8 +2361,90 @@ class HMGen:
         return self.ops
 
 
-FAMILIES = [("dyn_array", DAGen, 0.36), ("list", ListGen, 0.12), ("gc", GCGen, 0.16), ("nl_string", StrGen, 0.12), ("cstr", CStrGen, 0.06),
-            ("hashmap", HMGen, 0.18)]
+# ---- the string builder behind to_string -----------------------------------------------------------------------------
+class FmtGen:
+    """slot -> {"b": bytes, "cap": capacity by the implementation's policy}.  The capacity is followed only to aim appends
+    at the exact-fit boundaries (text ending at cap-2 .. cap+1) and to keep the self-append inside what the helper
+    supports (no growth while the source is the buffer itself: nothing nanoc generates does that)."""
+
+    def __init__(self, r, h, nops):
+        self.r = r
+        self.h = h
+        self.nops = nops
+        self.s = {}
+        self.ops = {}
+
+    def emit(self, line, result, s):
+        st = ""
+        if s in self.s:
+            st = " | len=%d fits=1 z=1" % len(self.s[s]["b"])
+            if len(self.s[s]["b"]) > self.h.maxlen:
+                self.h.maxlen = len(self.s[s]["b"])
+        self.h.x(line, result, st)
+        key = "%s.fmt_builder" % OPNAMES[op_of(line)]
+        self.ops[key] = self.ops.get(key, 0) + 1
+        self.h.elem_kinds.add("fmt_builder")
+
+    def grow(self, d, extra):
+        need = len(d["b"]) + extra + 1
+        if need > d["cap"]:
+            c = d["cap"] or 128
+            while c < need:
+                c *= 2
+            d["cap"] = c
+            self.ops["append_that_grows.fmt_builder"] = self.ops.get("append_that_grows.fmt_builder", 0) + 1
+        elif need == d["cap"]:
+            self.ops["append_exact_fit.fmt_builder"] = self.ops.get("append_exact_fit.fmt_builder", 0) + 1
+
+    def run(self):
+        r = self.r
+        while self.nops - len(self.h.lines) - len(self.s) - 1 > 0:
+            if not self.s or (r.random() < 0.04 and len(self.s) < 6):
+                t = r.choice([x for x in range(8) if x not in self.s])
+                cap = r.choice([0, 1, 2, 4, 16, 128, 256, 256])
+                self.s[t] = {"b": b"", "cap": cap or 128}
+                self.emit("fn %d %d" % (t, cap), "ok", t)
+                continue
+            a = r.choice(list(self.s))
+            d = self.s[a]
+            n = len(d["b"])
+            k = r.random()
+            if k < 0.45:
+                # text that ends right at / around the capacity, else random
+                if r.random() < 0.5:
+                    want = d["cap"] + r.choice([-2, -1, -1, 0, 0, 1]) - n
+                    if want < 0 or want > 3000:
+                        want = r.randint(0, 12)
+                else:
+                    want = r.choice([0, 1, 2, r.randint(0, 40)])
+                b = rand_bytes(r, want, "ascii")
+                self.grow(d, len(b))
+                d["b"] += b
+                self.emit("fa %d %s" % (a, hx(b)), "ok", a)
+            elif k < 0.70:
+                c = r.randint(1, 255)
+                self.grow(d, 1)
+                d["b"] += bytes([c])
+                self.emit("fc %d %d" % (a, c), "ok", a)
+            elif k < 0.78:
+                if 2 * n + 1 > d["cap"] or n > 3000:
+                    continue
+                self.grow(d, n)
+                d["b"] += d["b"]
+                self.emit("fA %d" % a, "ok", a)
+            elif k < 0.95:
+                self.emit("fb %d" % a, hx(d["b"].split(b"\0")[0]), a)
+            else:
+                del self.s[a]
+                self.emit("ff %d" % a, "ok", a)
+        for a in sorted(self.s):
+            del self.s[a]
+            self.emit("ff %d" % a, "ok", a)
+        return self.ops
+
+
+FAMILIES = [("dyn_array", DAGen, 0.36), ("list", ListGen, 0.12), ("gc", GCGen, 0.16), ("nl_string", StrGen, 0.12), ("cstr", CStrGen, 0.05),
+            ("hashmap", HMGen, 0.15), ("fmt_builder", FmtGen, 0.04)]
 
 
 def history_length(r, maxlen):
@@ -2093,7 +2458,8 @@ def history_length(r, maxlen):
     return maxlen
 
 
-def make_history(hid, seed, maxlen, hold=False):
+def make_history(hid, seed, maxlen, flags=None):
+    flags = flags or {}
     r = random.Random(seed)
     k = r.random()
     acc = 0.0
@@ -2106,9 +2472,13 @@ def make_history(hid, seed, maxlen, hold=False):
     h = Hist(hid, fam)
     n = history_length(r, maxlen)
     if fam == "dyn_array" and r.random() < 0.35:
-        g = cls(r, h, n, kinds=r.choice(["s", "a", "t", "i", "f", "sa", "ub"]))     # single-kind histories reach larger sizes
+        g = cls(r, h, n, kinds=r.choice(["s", "a", "t", "i", "f", "sa", "ub", "t", "s"]), flags=flags)     # single-kind histories reach larger sizes
+    elif fam == "dyn_array":
+        g = cls(r, h, n, flags=flags)
+    elif fam == "list":
+        g = cls(r, h, n, flags=flags)
     elif fam == "hashmap":
-        g = cls(r, h, n, hold=hold)
+        g = cls(r, h, n, hold=bool(flags.get("hold")))
     else:
         g = cls(r, h, n)
     h.ops = g.run()
@@ -2142,6 +2512,10 @@ DIRECTED_HISTORIES = {
     "shrink_empty": ["sw 0 16", "sh 0", "sr 0 8", "sf 0"],
     # nl_cstr_substring(): start + len overflows
     "cstr_substring_len_max": ["cs 68656c6c6f 1 9223372036854775807"],
+    # dyn_array_push_struct(a, dyn_array_get_struct(a, i), size) at length == capacity: the store is realloc'd, then read
+    "push_struct_own_element_at_capacity": ["an 0 t"] + ["ap 0 %02x%02x%02x%02x" % (i, i, i, i) for i in range(1, 9)] + ["apA 0 0", "ad 0"],
+    # list_string_set(l, i, list_string_get(l, i)): the old string is freed before it is copied
+    "list_string_set_own_element": ["mn 0", "mp 0 6162", "mp 0 63", "msA 0 1 1", "md 0"],
     # map_get() hands out the map's own buffer: a later put of the same key (or remove / clear / free) frees it
     "map_get_held_after_put": ["hn 0 ss", "hp 0 61 6f6e65", "hG 0 61 0", "hp 0 61 74776f", "hH 0"],
     # map_keys() / map_values() hand out arrays of the map's own buffers
@@ -2166,12 +2540,15 @@ def directed_expected(name, lines):
         "utf8_substring_0_0": ["ok | 616263 len=3 capok=1 nt=1 z=1", "valid 1 | 616263 len=3 capok=1 nt=1 z=1", "ok | - len=0 capok=1 nt=0"],
         "shrink_empty": ["ok | - len=0 capok=1 nt=0", "ok | - len=0 capok=1 nt=0", "capge 1 | - len=0 capok=1 nt=0", "ok"],
         "cstr_substring_len_max": ["656c6c6f"],
+        "push_struct_own_element_at_capacity": ["ok | len=0"] + ["same | len=%d" % i for i in range(1, 9)] + [
+            "same | len=9", "[%s 01010101] | len=9" % " ".join("%02x%02x%02x%02x" % (i, i, i, i) for i in range(1, 9))],
+        "list_string_set_own_element": ["ok | len=0", "ok | len=1", "ok | len=2", "ok | len=2", "[6162 63] | len=2"],
         "map_get_held_after_put": ["ok | size=0", "ok | size=1", "6f6e65 | size=1", "ok | size=1", "6f6e65"],
         "map_keys_held_after_remove": ["ok | size=0", "ok | size=1", "ok | size=2", "[61 62] | size=2", "ok | size=1", "[61 62]"],
     }[name]
     h = Hist("d-" + name, "directed")
     for line, e in zip(lines, E):
-        if " | len=" in e and line[0] == "a":
+        if " | len=" in e and line[0] in "alm":
             res, ln = e.rsplit(" | len=", 1)
             h.c(line, res, int(ln))
         else:
@@ -2379,8 +2756,8 @@ def judge_batch(binp, cwd, hists):
 
 
 def _hist_worker(args):
-    binp, cwd, items, maxlen, hold = args
-    hists = [make_history(hid, seed, maxlen, hold) for hid, seed in items]
+    binp, cwd, items, maxlen, flags = args
+    hists = [make_history(hid, seed, maxlen, flags) for hid, seed in items]
     res = judge_batch(binp, cwd, hists)
     summary = {"ops": {}, "families": {}, "kinds": {}, "maxlen": {}, "hashes": [], "steps": 0, "verdicts": [], "inconclusive": 0, "sample": None}
     for h, v in res:
@@ -2404,7 +2781,8 @@ def _hist_worker(args):
     return summary
 
 
-def run_histories(ctx, sc, binp, n, maxlen, cov, hold=False):
+def run_histories(ctx, sc, binp, n, maxlen, cov, flags=None):
+    flags = flags or {}
     import concurrent.futures as cf
     per = 25 if maxlen <= 200 else 40
     items = [("%06d" % i, ctx.rng("hist", i).getrandbits(64)) for i in range(n)]
@@ -2414,7 +2792,7 @@ def run_histories(ctx, sc, binp, n, maxlen, cov, hold=False):
     hashes = set()
     samples = []
     with cf.ProcessPoolExecutor(max_workers=min(16, os.cpu_count() or 4)) as ex:
-        for s in ex.map(_hist_worker, [(binp, cwd, b, maxlen, hold) for b in batches], chunksize=1):
+        for s in ex.map(_hist_worker, [(binp, cwd, b, maxlen, flags) for b in batches], chunksize=1):
             for k in ("ops", "families", "kinds"):
                 for a, b in s[k].items():
                     tot[k][a] = tot[k].get(a, 0) + b
@@ -2428,7 +2806,7 @@ def run_histories(ctx, sc, binp, n, maxlen, cov, hold=False):
             for key, what, files in s["verdicts"]:
                 ctx.violation(key, what, files)
     cov["histories"] = n
-    cov["hashmap_histories_reread_held_values"] = hold
+    cov["history_switches"] = dict(flags)     # shapes bound to an open finding are generated only once its directed cell agrees
     cov["history_steps"] = tot["steps"]
     cov["histories_by_family"] = tot["families"]
     cov["history_operations_by_kind_and_element"] = dict(sorted(tot["ops"].items()))
@@ -2501,14 +2879,16 @@ def run(ctx):
         # ---- part 1: programs ---------------------------------------------------------------------------------------
         n_prog = ctx.n(120, 3000)
         n_tpl = n_prog // 4
-        progs, n_generated = gen_programs(ctx, n_prog - n_tpl, n_tpl)
+        run_directed_programs(ctx, sc, asan, cov)
+        pflags = {"alias_grow_prog": cov["directed_programs"].get("array_push_own_struct_at_capacity") == "clean+equal"}
+        cov["program_switches"] = pflags
+        progs, n_generated = gen_programs(ctx, n_prog - n_tpl, n_tpl, pflags)
         lap("generate_programs")
         ctx.require(len(progs) >= n_prog * 0.75, "too few in-zone programs: %d of %d (generator produced %d candidates)" % (len(progs), n_prog, n_generated))
         hist, fsets, psamples = run_programs(ctx, sc, asan, progs, cov)
         cov["program_candidates_generated"] = n_generated
         lap("run_programs")
         n_census_clean = run_census(ctx, sc, asan, cov)
-        run_directed_programs(ctx, sc, asan, cov)
         lap("census+directed_programs")
         # ---- part 2: histories --------------------------------------------------------------------------------------
         binp, cmdline = build_hist_probe(ctx, sc, asan)
@@ -2519,8 +2899,11 @@ def run(ctx):
         lap("cells")
         n_hist = ctx.n(2000, 200000)
         maxlen = ctx.n(200, 1000)
-        hold = all(cov["directed_histories"].get(c) == "agrees" for c in HOLD_CELLS)
-        hashes, hsamples = run_histories(ctx, sc, binp, n_hist, maxlen, cov, hold=hold)
+        dh = cov["directed_histories"]
+        flags = {"hold": all(dh.get(c) == "agrees" for c in HOLD_CELLS),
+                 "alias_grow": dh.get("push_struct_own_element_at_capacity") == "agrees",
+                 "set_self": dh.get("list_string_set_own_element") == "agrees"}
+        hashes, hsamples = run_histories(ctx, sc, binp, n_hist, maxlen, cov, flags=flags)
         lap("histories")
         cov["phase_seconds"] = phases
         if not ctx.violations:
